@@ -107,7 +107,9 @@ Definition on_ack (v5 : bool) (w : writer) (a : ack) : writer :=
   | APubrec id err =>
       let o := del_out id (pubout w) in
       if v5 && err
-      then wr_set w (release (fl w) id) (q0 w) (q12 w) (qrel w) o
+      then (if in_out id (pubout w)                     (* a refusal of something that is not outstanding frees nothing *)
+            then wr_set w (release (fl w) id) (q0 w) (q12 w) (qrel w) o
+            else w)
       else wr_set w (fl w) (q0 w) (q12 w) (qrel w ++ [mk_pubrel id]) o
   end.
 
